@@ -1113,7 +1113,15 @@ example : castStrBool "Yes".toList = none := C18.bool_other_null "Yes".toList (b
 example : castStrBool " true".toList = none := C18.bool_other_null " true".toList (by decide) (by decide)
 
 -- NONVACUOUS: PysparklingVerif.C18.cast_null_is_null
-example : castNull .string .date = some none := C18.cast_null_is_null .string .date (by decide)
+example : castNull .string .date = some none := C18.cast_null_is_null .string .date (by decide) (by decide)
+/-- a null array of longs cast to an array of strings; a null string cast to binary -/
+example : castNull .arrayL .arrayS = some none := C18.cast_null_is_null .arrayL .arrayS (by decide) (by decide)
+example : castNull .string .binary = some none := C18.cast_null_is_null .string .binary (by decide) (by decide)
+
+-- NONVACUOUS: PysparklingVerif.C18.cast_null_accepted
+example : castable .mapL .mapS = true := C18.cast_null_accepted .mapL .mapS (by decide)
+/-- (and a refused pair, so `castable` is not constantly true) -/
+example : castable .int .arrayL = false := by decide
 
 -- NONVACUOUS: PysparklingVerif.C18.date_string_forms
 /-- year "2020", month "2", day "29", followed by a time part: a leap day -/
